@@ -1,3 +1,4 @@
 import GffProofs.Lemmas.SplitJoin
 import GffProofs.Props.C12
 import GffProofs.Props.C09
+import GffProofs.Props.C08a
